@@ -286,4 +286,156 @@ theorem nodup_dedup [DecidableEq A] (l : List A) : (dedup l).Nodup := by
       exact List.nodup_cons.mpr ⟨fun h => hx ((mem_dedup r x).mp h), ih⟩
 end
 
+section
+variable {K S : Type} (wf : S → Bool) (verify : K → S → Bool)
+
+/-- replace position `j` by `p` in an assignment -/
+def swapPos (j p : Nat) (ps : List Nat) : List Nat := ps.map fun x => if x = j then p else x
+
+theorem swapPos_nodup (j p : Nat) (ps : List Nat) (hn : ps.Nodup) (hp : p ∉ ps) : (swapPos j p ps).Nodup := by
+  induction ps with
+  | nil => simp [swapPos]
+  | cons x r ih =>
+    have hx := List.nodup_cons.mp hn
+    have hpr : p ∉ r := fun h => hp (List.mem_cons_of_mem _ h)
+    have hpx : p ≠ x := fun h => hp (h ▸ List.mem_cons_self)
+    simp only [swapPos, List.map_cons]
+    refine List.nodup_cons.mpr ⟨?_, ih hx.2 hpr⟩
+    intro hm
+    obtain ⟨y, hy, hye⟩ := List.mem_map.mp hm
+    by_cases hxj : x = j
+    · simp only [hxj, if_true] at hye
+      by_cases hyj : y = j
+      · exact hx.1 (hxj ▸ hyj ▸ hy)
+      · simp only [hyj, if_false] at hye; exact hpr (hye ▸ hy)
+    · simp only [hxj, if_false] at hye
+      by_cases hyj : y = j
+      · simp only [hyj, if_true] at hye; exact hpx hye
+      · simp only [hyj, if_false] at hye; exact hx.1 (hye ▸ hy)
+
+theorem swapPos_mem (j p : Nat) (ps : List Nat) (x : Nat) (h : x ∈ swapPos j p ps) : x = p ∨ (x ∈ ps ∧ x ≠ j) := by
+  obtain ⟨y, hy, hye⟩ := List.mem_map.mp h
+  by_cases hyj : y = j
+  · simp only [hyj, if_true] at hye; exact Or.inl hye.symm
+  · simp only [hyj, if_false] at hye; exact Or.inr ⟨hye ▸ hy, hye ▸ hyj⟩
+
+/-- Completeness of the greedy matching when a signature never verifies under two different listed keys
+    (it may verify under several positions that list the same key). -/
+theorem multiLoop_complete' [DecidableEq K] (keys : List K) (ss : List S) (used ps : List Nat)
+    (ha : Assigns wf verify keys ps ss) (hn : ps.Nodup) (hd : ∀ p ∈ ps, p ∉ used)
+    (huniq : ∀ s ∈ ss, ∀ q q' (hq : q < keys.length) (hq' : q' < keys.length),
+      verify keys[q] s = true → verify keys[q'] s = true → keys[q] = keys[q']) :
+    ∃ ps', multiLoop wf verify keys ss used = .ok ps' := by
+  induction ss generalizing used ps with
+  | nil => exact ⟨[], by simp [multiLoop]⟩
+  | cons s rest ih =>
+    obtain ⟨hl, hv⟩ := ha
+    cases ps with
+    | nil => simp at hl
+    | cons p ps' =>
+      obtain ⟨k, hk, hwf, hver⟩ := hv (p, s) (by simp)
+      have hpl : p < keys.length := by
+        rcases Nat.lt_or_ge p keys.length with h | h
+        · exact h
+        · rw [List.getElem?_eq_none h] at hk; simp at hk
+      rw [List.getElem?_eq_getElem hpl] at hk
+      simp only [Option.some.injEq] at hk
+      have hn' := List.nodup_cons.mp hn
+      have hpu : p ∉ used := hd p List.mem_cons_self
+      unfold multiLoop
+      simp only [hwf, Bool.not_true, Bool.false_eq_true, if_false]
+      cases hf : findKey verify keys used s 0 with
+      | none =>
+        have := findKey_none verify keys used s 0 hf p (Nat.zero_le _) hpl
+        rcases this with h | h
+        · exact absurd h hpu
+        · rw [hk, hver] at h; simp at h
+      | some j =>
+        obtain ⟨_, hju, ⟨hjl, hjv⟩, _⟩ := findKey_some verify keys used s 0 j hf
+        have hkey : keys[j] = keys[p] := huniq s List.mem_cons_self j p hjl hpl hjv (by rw [hk]; exact hver)
+        simp only
+        -- an assignment for the remaining signatures that avoids j
+        have hex : ∃ qs, Assigns wf verify keys qs rest ∧ qs.Nodup ∧ ∀ q ∈ qs, q ∉ j :: used := by
+          refine ⟨swapPos j p ps', ⟨by simpa [swapPos] using hl, ?_⟩, swapPos_nodup j p ps' hn'.2 hn'.1, ?_⟩
+          · intro x hx
+            -- x = (f y, t) for (y, t) in ps'.zip rest
+            have hzip : swapPos j p ps' = ps'.map fun x => if x = j then p else x := rfl
+            rw [hzip, List.zip_map_left] at hx
+            obtain ⟨⟨y, t⟩, hyt, rfl⟩ := List.mem_map.mp hx
+            obtain ⟨k', hk', hw', hv'⟩ := hv (y, t) (by simp [hyt])
+            by_cases hyj : y = j
+            · simp only [Prod.map_fst, Prod.map_snd, hyj, if_true, id_eq]
+              refine ⟨keys[p], List.getElem?_eq_getElem hpl, hw', ?_⟩
+              simp only at hk'
+              rw [hyj, List.getElem?_eq_getElem hjl] at hk'
+              simp only [Option.some.injEq] at hk'
+              rw [← hkey, hk']; exact hv'
+            · simp only [Prod.map_fst, Prod.map_snd, hyj, if_false, id_eq]
+              exact ⟨k', hk', hw', hv'⟩
+          · intro q hq hqu
+            rcases swapPos_mem j p ps' q hq with rfl | ⟨hq1, hq2⟩
+            · rcases List.mem_cons.mp hqu with h | h
+              · -- p = j: then j's slot — fine only if p = j, but then p ∈ j :: used is allowed? no: show contradiction
+                subst h
+                -- q = j = p: swapPos yields p only when some y = j ∈ ps', i.e. p ∈ ps': contradiction
+                obtain ⟨y, hy, hye⟩ := List.mem_map.mp hq
+                by_cases hyj : y = q
+                · exact hn'.1 (hyj ▸ hy)
+                · simp only [hyj, if_false] at hye
+              · exact hpu h
+            · rcases List.mem_cons.mp hqu with h | h
+              · exact hq2 h
+              · exact hd q (List.mem_cons_of_mem _ hq1) h
+        obtain ⟨qs, hqa, hqn, hqd⟩ := hex
+        obtain ⟨ps'', hps''⟩ := ih (j :: used) qs hqa hqn hqd
+          (fun t ht => huniq t (List.mem_cons_of_mem _ ht))
+        exact ⟨j :: ps'', by rw [hps'']⟩
+
+variable {A : Type} (addr1 : K → A) (addrM : List K → Nat → A)
+
+/-- Each of the first m signatures verifies under at most one distinct listed key. -/
+def UniqKey [DecidableEq K] (e : Entry K S) : Prop :=
+  ∀ s ∈ e.sigs.take e.m, ∀ q q' (hq : q < e.keys.length) (hq' : q' < e.keys.length),
+    verify e.keys[q] s = true → verify e.keys[q'] s = true → e.keys[q] = e.keys[q']
+
+theorem checkEntry_complete' [DecidableEq K] (e : Entry K S) (hok : EntryOK wf verify e) (hu : UniqKey verify e) :
+    checkEntry wf verify addr1 addrM e = .ok (entryAddr addr1 addrM e) := by
+  obtain ⟨h1, hm, h3, h2, hcase⟩ := hok
+  unfold checkEntry
+  simp only
+  have hp : (decide (e.keys.length > MULTI_SIG_MAX_PUBKEY_SIZE) || decide (e.sigs.length < e.m) || decide (e.m > e.keys.length) || e.m == 0) = false := by
+    simp only [Bool.or_eq_false_iff, decide_eq_false_iff_not, beq_eq_false_iff_ne]
+    omega
+  rw [hp]
+  simp only [Bool.false_eq_true, if_false]
+  rcases hcase with ⟨k, s, rest, hk, hs, hw, hv⟩ | ⟨hlen, ps, hN, hA⟩
+  · rw [hk, hs]
+    simp [hw, hv, entryAddr, hk]
+  · split
+    · rename_i k s rest hk hs; simp [hk] at hlen
+    · rename_i k hk hs; simp [hk] at hlen
+    · obtain ⟨ps', hps'⟩ := multiLoop_complete' wf verify e.keys (e.sigs.take e.m) [] ps hA hN (by simp) hu
+      have hvm : verifyMultiSignature wf verify e.keys e.m e.sigs = .ok ps' := by
+        unfold verifyMultiSignature
+        rw [if_neg (by omega)]; exact hps'
+      rw [hvm]
+      simp only
+      unfold entryAddr
+      split
+      · rename_i k hk; simp [hk] at hlen
+      · rfl
+
+theorem checkEntries_complete' [DecidableEq K] (es : List (Entry K S))
+    (h : ∀ e ∈ es, EntryOK wf verify e ∧ UniqKey verify e) :
+    checkEntries wf verify addr1 addrM es = .ok (es.map (entryAddr addr1 addrM)) := by
+  induction es with
+  | nil => simp [checkEntries]
+  | cons e rest ih =>
+    unfold checkEntries
+    rw [checkEntry_complete' wf verify addr1 addrM e (h e (by simp)).1 (h e (by simp)).2]
+    simp only
+    rw [ih (fun x hx => h x (by simp [hx]))]
+    simp
+end
+
 end Poly.Proofs.Sig
